@@ -102,4 +102,29 @@ CHECKS = {
         note="Trusted: Lean kernel; renderer models validated per case; positions of the C05/C02 findings excluded; project-level 'still declared' case is finding K18a.",
         technique="Lean 4 theorems (mutual structural induction over TypeStructure) + differential / metamorphic correspondence",
     ),
+    "C03": dict(
+        text="Proof over the analysis/generation model that the commands module holds exactly one wrapper per analysed command (both modes), named by camelCase, that sorting the files only reorders, "
+             "and that an unselected (unparsable / non-.rs / under target or .git) file leaves the whole analysis unchanged; tied to the code by whole-pipeline correspondence and a wrapper-bijection oracle on the real commands.ts.",
+        design_ref="DESIGN.md section 7.C03", note="Trusted: Lean kernel; the hand-written analysis + generation model (tied per case: whole analysis and all four file texts modulo whitespace); syn / walkdir / tera / proc_macro2 modelled; exclusion classes stated on the input.",
+        technique="Lean 4 theorems on the project model + whole-pipeline differential correspondence"),
+    "C07": dict(
+        text="Proof that every declared type is a discovered serde type, is declared once, and is reachable from the public surface through field types (soundness of the worklist closure, any fuel), and that every "
+             "serde-defined seed is declared; the completeness of the closure is tied per case by an independent reachability oracle on the real types.ts.",
+        design_ref="DESIGN.md section 7.C07, Appendix F", note="Trusted: Lean kernel; the hand-written analysis + generation model (tied per case: whole analysis and all four file texts modulo whitespace); syn / walkdir / tera / proc_macro2 modelled; exclusion classes stated on the input.",
+        technique="Lean 4 theorems (closure soundness by induction over the worklist) + whole-pipeline differential correspondence"),
+    "C09": dict(
+        text="Proof that the Zod struct schemas are emitted in a DFS order in which every recorded dependency precedes its dependent unless on a common cycle, that the DFS never exhausts its fuel, that every used struct is emitted once, "
+             "and that parameter schemas follow all struct schemas; the order is a function of the sets only (sorted iteration), so it holds for every hash order; tied by an evaluation-order oracle on the real types.ts.",
+        design_ref="DESIGN.md section 7.C09, Appendix A", note="Trusted: Lean kernel; the hand-written analysis + generation model (tied per case: whole analysis and all four file texts modulo whitespace); syn / walkdir / tera / proc_macro2 modelled; exclusion classes stated on the input.",
+        technique="Lean 4 theorems (instance of the C20 DFS order theorem) + whole-pipeline differential correspondence"),
+    "C12": dict(
+        text="Proof that the analysed events have pairwise distinct names which are exactly the literal names of the emit calls found, that the events module holds exactly one listener per event subscribed to its name, and that without events "
+             "no events module is written or re-exported; tied by a listener oracle on the real events.ts / index.ts over all documented placements and receiver forms.",
+        design_ref="DESIGN.md section 7.C12", note="Trusted: Lean kernel; the hand-written analysis + generation model (tied per case: whole analysis and all four file texts modulo whitespace); syn / walkdir / tera / proc_macro2 modelled; exclusion classes stated on the input.",
+        technique="Lean 4 theorems (dedup fold invariant) + whole-pipeline differential correspondence"),
+    "C02": dict(
+        text="Proof that index.ts re-exports exactly the files written, that declared struct names are pairwise distinct and are exactly the used names, that a wrapper refers to types.<T>Params exactly when it is declared, and that every Zod "
+             "schema (enums included) has its inferred alias; closedness of type references is tied per case by resolver oracles on the real files.",
+        design_ref="DESIGN.md section 7.C02", note="Trusted: Lean kernel; the hand-written analysis + generation model (tied per case: whole analysis and all four file texts modulo whitespace); syn / walkdir / tera / proc_macro2 modelled; exclusion classes stated on the input.",
+        technique="Lean 4 theorems on the project model + resolver oracles on the real files"),
 }
